@@ -193,8 +193,9 @@ type lzScen struct {
 	args   []int // arg kinds, len = nfixed + extra
 	route  int
 	typed  bool
-	later  int // number of follow-up texts calling (k)
-	ndelta int // arity error: args added (+) or removed (-) (malformed stream only)
+	later  int   // number of follow-up texts calling (k)
+	named  []int // typed func only: the outer call names its arguments, written in this order of formals
+	ndelta int   // arity error: args added (+) or removed (-) (malformed stream only)
 }
 
 var lzHelpers = []*nd{
@@ -299,6 +300,14 @@ func (sc *lzScen) texts() [][]*nd {
 	} else if sc.ndelta > 0 {
 		args = append(args, lzArg(aTrace, 9))
 	}
+	if sc.named != nil && len(args) == len(f.lazy) {
+		// (f name: value …): values in the chosen written order
+		var na []*nd
+		for _, i := range sc.named {
+			na = append(na, A(f.pname(i)+":"), args[i])
+		}
+		args = na
+	}
 	var c *nd
 	switch sc.route {
 	case rDirect:
@@ -401,6 +410,16 @@ func (sc *lzScen) count(g *Gen, stream string) {
 	if sc.typed {
 		g.Count("typed func declaration")
 	}
+	if sc.named != nil {
+		g.Count("typed func called with named arguments")
+		inOrder := true
+		for k, i := range sc.named {
+			inOrder = inOrder && k == i
+		}
+		if !inOrder {
+			g.Count("named arguments written out of formal order")
+		}
+	}
 	g.Count(fmt.Sprintf("history length %d", 1+sc.later))
 }
 
@@ -429,6 +448,36 @@ func strayAmp(n *nd, isParams bool) bool {
 	return false
 }
 
+func emptyBlock(n *nd) bool {
+	if n.kids == nil {
+		return false
+	}
+	if !n.sq && len(n.kids) == 1 && (n.kids[0].atom == "begin" || n.kids[0].atom == "newScope") {
+		return true
+	}
+	for _, k := range n.kids {
+		if emptyBlock(k) {
+			return true
+		}
+	}
+	return false
+}
+
+func symbolInHead(n *nd) bool {
+	if n.kids == nil {
+		return false
+	}
+	if !n.sq && len(n.kids) > 0 && n.kids[0].kids != nil && !n.kids[0].sq && len(n.kids[0].kids) > 0 && n.kids[0].kids[0].atom == "substitute" {
+		return true
+	}
+	for _, k := range n.kids {
+		if symbolInHead(k) {
+			return true
+		}
+	}
+	return false
+}
+
 func (sc *lzScen) emit(g *Gen, stream string, mutate bool) {
 	ts := sc.texts()
 	if mutate {
@@ -450,6 +499,18 @@ func (sc *lzScen) emit(g *Gen, stream string, mutate bool) {
 			for _, f := range t {
 				if strayAmp(f, false) {
 					g.Count("mal dropped (stray &)")
+					return
+				}
+				if emptyBlock(f) {
+					// (begin) / (newScope) without statements used as a value: C02's known findings
+					g.Count("mal dropped (empty begin/newScope)")
+					return
+				}
+				if symbolInHead(f) {
+					// ((substitute #x)): a symbol *value* in head position is resolved once more as a
+					// function name by ResolveCallable; symbols as values exist only as recovered source,
+					// calling one is outside the property and outside the modelled core
+					g.Count("mal dropped (recovered source in head position)")
 					return
 				}
 				if f.leaf() && (f.atom == "+" || f.atom == "-") {
@@ -487,8 +548,8 @@ func routeOK(route int, f lzFn, nargs int) bool {
 func lzRandom(g *Gen, typed bool) *lzScen {
 	r := g.Rng
 	n := r.Intn(4) // 0..3 fixed params
-	if typed && n == 0 {
-		n = 1
+	if typed {
+		n = 1 + r.Intn(3)
 	}
 	f := lzFn{lazy: make([]bool, n)}
 	for i := range f.lazy {
@@ -522,11 +583,30 @@ func lzRandom(g *Gen, typed bool) *lzScen {
 	for tries := 0; ; tries++ {
 		sc.route = r.Intn(rRoutes)
 		if typed {
-			sc.route = []int{rDirect, rTail, rRec, rAlias, rWrapper, rTailShadowName}[r.Intn(6)]
+			sc.route = []int{rDirect, rTail, rRec, rAlias, rWrapper, rTailShadowName, rDirect, rWrapper, rApplyArr, rMapArr, rParam, rComputedFn}[r.Intn(12)]
 		}
 		if routeOK(sc.route, f, nargs) {
 			break
 		}
+	}
+	if typed && (sc.route == rDirect || sc.route == rWrapper) && n >= 1 && r.Intn(2) == 0 {
+		// named arguments: a random written order that keeps the strict ones in formal order
+		// (so that the order of their effects is the same as in the positional call)
+		perm := r.Perm(n)
+		var strictIdx []int
+		for i := 0; i < n; i++ {
+			if !f.lazy[i] {
+				strictIdx = append(strictIdx, i)
+			}
+		}
+		k := 0
+		for j, i := range perm {
+			if !f.lazy[i] {
+				perm[j] = strictIdx[k]
+				k++
+			}
+		}
+		sc.named = perm
 	}
 	if sc.route == rMapArr || sc.route == rMapList {
 		// map calls f once per element: the "arguments" are the elements
@@ -563,9 +643,9 @@ func lazyGen(g *Gen) {
 		g.Count("stream fixed")
 	}
 	lazySmallScope(g)
-	nR, nM, nS := 1500, 500, 150
+	nR, nM, nS := 1500, 500, 300
 	if g.Thorough() {
-		nR, nM, nS = 30000, 8000, 3000
+		nR, nM, nS = 50000, 12000, 6000
 	}
 	for i := 0; i < nR; i++ {
 		lzRandom(g, false).emit(g, "rnd", false)
@@ -682,6 +762,9 @@ var lazyFixed = []string{
 	"(defn f [#x n] (trace 100) (cond (== n 0) (force #x) (f (trace n) (- n 1)))) (f (trace 9) 2)",
 	"(defn f [#x n] (cond (== n 0) 0 (+ 1 (f (trace n) (- n 1))))) (f (trace 9) 2)",
 	"(defn strict [x] x) (def g strict) (g (trace 3))",
+	"(defn f [#x] (force #x)) (defn mkc [a] (fn [b] (f (trace (+ a b))))) (def a 100) (def b 200) ((mkc 7) 3)",
+	"(def k nil) (defn f [#x] (set k (fn [] (force #x))) 0) (defn mkc [a] (fn [b] (f (trace (+ a b))))) (def a 100) (def b 200) ((mkc 7) 3) (k) (let [a 1 b 2] (k))",
+	"(defn f [#x] (let [a 50 b 60] ((fn [] (force #x))))) (defn mkc [a] (fn [b] (let [c 1] (f (trace (+ a (+ b c))))))) ((mkc 7) 3)",
 	"(def order \"\") (defn choose [] (set order (concat order \"c\")) (fn [x] order)) ((choose) (set order (concat order \"a\")))",
 	"(force 1) (force) (substitute 2) (substitute)",
 	"(force 1 2)",
@@ -702,6 +785,12 @@ var lazyFixedStd = []string{
 	"(func ft [#x:int64 n:int64] [r:int64] (cond (== n 0) (force #x) (ft (trace n) (- n 1)))) (ft (trace 9) 2)",
 	"(func ft [#x:int64 n:int64] [r:int64] (cond (== n 0) 0 (+ 1 (ft (trace n) (- n 1))))) (ft (trace 9) 2)",
 	"(func ft [x:int64 #y:int64] [r:int64] x) (ft (trace 1) (trace \"s\"))",
+	"(func ft [a:int64 b:int64] [r:int64] (- a b)) (ft b: 1 a: 10)",
+	"(func ft [#x:int64 n:int64] [r:int64] (trace 100) n) (ft n: 2 #x: (trace 1))",
+	"(func ft [#x:int64 n:int64] [r:int64] (trace 100) (+ n (force #x))) (ft n: 2 #x: (trace 1))",
+	"(func ft [n:int64 #x:int64] [r:int64] (trace 100) n) (ft n: (trace 2) #x: (trace 1))",
+	"(func ft [n:int64 #x:int64 m:int64] [r:int64] (trace 100) (+ n (+ m (force #x)))) (ft #x: (trace 1) n: (trace 2) m: (trace 3))",
+	"(func ft [#x:int64 #y:int64] [r:int64] (trace 100) (force #y)) (ft #y: (trace 1) #x: (trace 2))",
 }
 
 // histories of several texts (already in wire form)
